@@ -199,6 +199,8 @@ func (e *Engine) bind() error {
 					e.parenMarks[cm.End()] = "old"
 				case "/*@head*/":
 					e.parenMarks[cm.End()] = "head"
+				case "/*@final*/":
+					e.parenMarks[cm.End()] = "final"
 				}
 			}
 		}
@@ -656,6 +658,8 @@ func (e *Engine) VerifyFunc(bc *BoundContract) (rep *FuncReport) {
 			anyExit = true
 			post := u.newSpecEnv(bc, out, stc, args, vals)
 			post.fr = nil
+			post.finalFr = fr
+			post.finalSt = out
 			for _, en := range bc.Ensures {
 				o := &Obligation{Kind: "ensures", Name: en.Text(), PC: out.pc, Goal: post.evalBool(en.Expr), Pos: e.Fset.Position(fn.Pos())}
 				if en.Clause.Name != "" {
